@@ -41,7 +41,9 @@ func Reset() {}
 
 func Now() Time {
 	if w := sched.Cur(); w != nil {
-		return epoch.Add(w.Now())
+		// the wall clock: timer time plus one millisecond per scheduler step, the
+		// same clock file modification times are taken from (memfs FS.Clock)
+		return epoch.Add(w.Now() + real.Duration(w.Step)*real.Millisecond)
 	}
 	return epoch
 }
